@@ -284,9 +284,9 @@ func gen(r *rand.Rand, idx int, tier string) Input {
 			issued = append(issued, append([]byte{}, shadow.Put(dict.Value(n))...))
 		}()
 	}
-	if idx%60 == 59 {
+	if idx%180 == 179 {
 		// many children under the root (child indexes >= 128 need two varint bytes), then names below them
-		n := lib.Range(r, 129, 140)
+		n := lib.Range(r, 129, 132)
 		for i := 0; i < n; i++ {
 			put([]byte{byte(255 - i)})
 			if i == 64 && r.Intn(2) == 0 {
